@@ -13,6 +13,7 @@ Definition pointer_of (a : iop) : option reg16 :=
 Definition uses_x (args : list iop) : bool := existsb (fun a => match pointer_of a with Some RX => true | _ => false end) args.
 Definition uses_y (args : list iop) : bool := existsb (fun a => match pointer_of a with Some RY => true | _ => false end) args.
 Definition is_load_store (o : operation) : bool := match o with OLd | OSt | OLdd | OStd => true | _ => false end.
+Definition has_displacement (args : list iop) : bool := existsb (fun a => match a with OIndex (IPostIncE _ _) => true | _ => false end) args.
 Definition has_operands (args : list iop) : bool := match args with [] => false | _ => true end.
 
 (** [disabled f o args]: flag f removes the instruction form (o, args) *)
@@ -22,7 +23,11 @@ Definition disabled (f : dopt) (o : operation) (args : list iop) : bool :=
   | NoJmp => match o with OJmp | OCall => true | _ => false end
   | NoXreg => is_load_store o && uses_x args
   | NoYreg => is_load_store o && uses_y args
-  | Tiny1x => match o with OAdiw | OSbiw | OIjmp | OIcall | OLdd | OStd | OLds | OSts | OPush | OPop => true | _ => false end
+  | Tiny1x => match o with
+              | OAdiw | OSbiw | OIjmp | OIcall | OLdd | OStd | OLds | OSts | OPush | OPop => true
+              | OLd | OSt => has_displacement args        (* LDD / STD spelled ld / st *)
+              | _ => false
+              end
   | NoLpm => match o with OLpm => true | _ => false end
   | NoLpmX => match o with OLpm => has_operands args | _ => false end
   | NoElpm => match o with OElpm => true | _ => false end
